@@ -61,3 +61,62 @@ pub fn real_project_files() -> Vec<std::path::PathBuf> {
     v.extend(crate::corpus::cte_files());
     v
 }
+
+static CATALOG: std::sync::OnceLock<Option<hulc::bdl::DB>> = std::sync::OnceLock::new();
+
+fn cached_catalog() -> Option<hulc::bdl::DB> {
+    CATALOG.get_or_init(|| guard(|| ctehexml::load_lider_catalog().ok()).ok().flatten()).clone()
+}
+
+fn merge_cached(d: &mut CtehexmlData) {
+    if let Some(cat) = cached_catalog() {
+        let mut db = std::mem::take(&mut d.bdldata.db);
+        db.materials.extend(cat.materials);
+        db.wallcons.extend(cat.wallcons);
+        db.wincons.extend(cat.wincons);
+        db.glasses.extend(cat.glasses);
+        db.frames.extend(cat.frames);
+        d.bdldata.db = db;
+    }
+}
+
+/// like parse_with_catalog + try_from, with the (input independent) catalogue parsed once per process
+pub fn convert_ctehexml_fast(text: &str) -> Conv {
+    match guard(|| {
+        ctehexml::parse(text).and_then(|mut d| {
+            merge_cached(&mut d);
+            Model::try_from(&d)
+        })
+    }) {
+        Ok(Ok(m)) => Conv::Ok(m),
+        Ok(Err(e)) => Conv::Err(format!("{:#}", e).chars().take(300).collect()),
+        Err(p) => Conv::Panic(p),
+    }
+}
+
+pub fn convert_bdl_fast(text: &str) -> Conv {
+    match guard(|| {
+        Data::new(text).and_then(|bdldata| {
+            let mut d = CtehexmlData { bdldata, ..Default::default() };
+            merge_cached(&mut d);
+            Model::try_from(&d)
+        })
+    }) {
+        Ok(Ok(m)) => Conv::Ok(m),
+        Ok(Err(e)) => Conv::Err(format!("{:#}", e).chars().take(300).collect()),
+        Err(p) => Conv::Panic(p),
+    }
+}
+
+/// (is_xml, full text, BDL text) of a real project file
+pub fn project_texts(path: &Path) -> (bool, String, String) {
+    let ext = path.extension().and_then(|e| e.to_str()).unwrap_or("").to_lowercase();
+    if ext == "ctehexml" {
+        let t = crate::corpus::read_utf8(path);
+        let bdl = crate::oracle::bdlread::bdl_span(&t).map(|(a, b)| t[a..b].to_string()).unwrap_or_default();
+        (true, t, bdl)
+    } else {
+        let t = crate::corpus::read_latin1(path);
+        (false, t.clone(), t)
+    }
+}
